@@ -1,8 +1,9 @@
 """Property -> harness modules.  A module may host conditions of several properties
 (the registry is filtered by property id)."""
 PROPS = {
-    'C10': ['mpgverif.harness.c10_rules', 'mpgverif.harness.c10_digest'],
-    'C04': ['mpgverif.harness.callvariant_loop'],
+    'C10': ['mpgverif.harness.c10_rules', 'mpgverif.harness.c10_digest', 'mpgverif.harness.c12_index'],
+    'C12': ['mpgverif.harness.c12_index'],
+    'C04': ['mpgverif.harness.callvariant_loop', 'mpgverif.harness.c12_index'],
     'C06': ['mpgverif.harness.callvariant_loop'],
     'C07': ['mpgverif.harness.callvariant_loop', 'mpgverif.harness.c07_wrapper'],
 }
